@@ -19,6 +19,13 @@ second show with another config under the same key -, without sync_ms (replaced 
 instance runs on until the replacement starts or is stopped: the deferred stop, chains of them), followed by pause /
 advance / step_back / resume / update / stop requests and the end of the mode that owns the show player, before and after
 the sync point.
+Session 3c: (0) repeated plays through show-player entries WITHOUT events_when_played / events_when_stopped / block_queue
+(gen_rep_case): ShowController.replace_or_advance_show then compares the ShowConfig with the instance in the dict and keeps
+it, advances it or replaces it - the same request again before the sync point, right after the start, one step later, at
+the last step; start_step 1..n+1; another speed (also after update requests); another show-token value; paused,
+manual_advance, hold-step and completed shows.  Starts and stops of such instances are observed at RunningShow._start_now /
+stop (there is no event to observe).  (a) show-token substitution has a Lean model (Model/ShowToken.lean) compared with the
+real Show.get_show_steps_with_token on generated nested step dicts (harness/common/tokens_c17.py).
 Oracle (model independent): effect start times follow the absolute schedule (exactly, in whole units), a synchronised
 start is on the sync grid, not in the past and at most one period away, every start posts `played`, every step has the
 token-substituted lights / colour / fade / step event, events once, nothing after stop, and at
@@ -29,6 +36,7 @@ to an instance nobody addressed, and at the end no RunningShow ever created unde
 from fractions import Fraction
 
 from harness.common import leanproc
+from harness.common import tokens_c17
 from harness.common.shrink import ddmin
 from harness.common.util import InfraError
 from harness.common.vmachine import VMachine, BootError
@@ -38,8 +46,8 @@ LEAN_MODULES = ["MpfVerif.Props.C17"]
 PROPS_FILE = "MpfVerif/Props/C17.lean"
 GEN = []
 MANIFEST = {
-  "text": "Proof on a Lean model of RunningShow (mpf/assets/show.py) as driven by the show player, with exact rational times (integer numerators over one common denominator; the model never rounds: the driver refuses a unit that is too coarse for a speed, and kth_step_time_exact proves that for any rational speed num/den - 3, 3/10, 3/2 with 100 ms / 330 ms steps included - the k-th scheduled step starts at T with T*num = t0*num + (sum of the preceding durations)*den, the sum taken first and divided once): for every show (step durations incl. hold steps, speed, loop count, start step positive / negative from the end / 0 / beyond the end), every number of loops and every lateness of the loop's timer callbacks, the executed steps are a prefix of the absolute schedule anchored at the play time - or, with sync_ms, at the synchronised start time, which is proved to be a multiple of sync, strictly after the request, at most one period away and the least such multiple, nothing being played before it; for every sequence of play/stop/pause/resume/advance/step_back/update requests and timer firings a show instance posts played at most once (exactly once when it is played without sync_ms, with sync_ms exactly when it was started by its timer or by a request), stopped exactly once iff it ends up stopped, completed at most once and only in the stopping step (clean-up, stopped, the request's own events, completed - in this order), looped exactly once per consumed loop, nothing but pause acknowledgements after stopped; it never has more than one live timer (the one it can cancel), plays no step and keeps no timer once it is stopped or completed whatever requests arrive later, and has cleared its context in every player it used when it is stopped. On top of it Model/ShowKey.lean models one show-player key with every instance ever created under it: a play over an instance that still runs replaces it - at once without sync_ms, and with sync_ms by a replacement that waits for its sync point and holds the deferred stop of the old instance (start_callback; chains of waiting replacements included); for every sequence of plays, key requests (stop = also the end of the owning mode, pause, resume, advance, step_back, update) and timer callbacks of any instance it is proved that as soon as a replacement has started OR has been stopped (also before it ever started, e.g. after a pause cancelled its sync timer) every older instance is stopped and its stopped event occurs exactly once in the key's trace (replaced_show_stopped_exactly_once), that after a stop request no instance of the key runs (key_stopped_nothing_runs), that every instance's projection of the trace has stopped / played / completed once each (instance_events_once), that an instance holding a deferred stop has neither started nor stopped and names the instance created just before it (replaces_previous), and that every stopped instance - replaced ones included - has a clean context and no timer (context_removed_all). The model is tied to the real show player / show controller / RunningShow / light player by a correspondence run on generated shows (dyadic and non-dyadic step times and speeds, sync_ms, start steps, hold steps, show files written with show tokens in keys, nested values, lists and time strings, one or two shows under one key, show player at machine level or in a mode) and control sequences on every check, with a model-independent oracle on effect timestamps (exact Fractions, tolerance 1 us), the sync grid, events per instance, deferred stops, token-substituted lights / colours / fades / step events and a twin machine without shows.",
-  "note": "Trusted: Lean kernel + {propext, Classical.choice, Quot.sound}; the hand-written model Model/Show.lean (validated only by differential runs); IEEE floats are outside the model: the implementation's float times are compared with the exact rational ones with a tolerance of 1 us, and a play request that falls (within float error) on a sync multiple is checked by the oracle only (start now or one period later are both accepted); token substitution has no Lean model (oracle only: every step's lights, colours, fade and step event after substitution; a missing token must refuse the play or leave nothing behind); show queues / action queue / block_queue, show pools, replace_or_advance_show's keep-the-old-instance shortcuts (never taken here: every play entry has events_when_played, so a play always replaces) and players other than lights/events are outside the model and not exercised; the order of same-instant timer callbacks of two instances of one key is taken from the run; the clean-up of the light stacks themselves is checked by the oracle (twin machine) and by C09's model, not proved here.",
+  "text": "Proof on a Lean model of RunningShow (mpf/assets/show.py) as driven by the show player, with exact rational times (integer numerators over one common denominator; the model never rounds: the driver refuses a unit that is too coarse for a speed, and kth_step_time_exact proves that for any rational speed num/den - 3, 3/10, 3/2 with 100 ms / 330 ms steps included - the k-th scheduled step starts at T with T*num = t0*num + (sum of the preceding durations)*den, the sum taken first and divided once): for every show (step durations incl. hold steps, speed, loop count, start step positive / negative from the end / 0 / beyond the end), every number of loops and every lateness of the loop's timer callbacks, the executed steps are a prefix of the absolute schedule anchored at the play time - or, with sync_ms, at the synchronised start time, which is proved to be a multiple of sync, strictly after the request, at most one period away and the least such multiple, nothing being played before it; for every sequence of play/stop/pause/resume/advance/step_back/update requests and timer firings a show instance posts played at most once (exactly once when it is played without sync_ms, with sync_ms exactly when it was started by its timer or by a request), stopped exactly once iff it ends up stopped, completed at most once and only in the stopping step (clean-up, stopped, the request's own events, completed - in this order), looped exactly once per consumed loop, nothing but pause acknowledgements after stopped; it never has more than one live timer (the one it can cancel), plays no step and keeps no timer once it is stopped or completed whatever requests arrive later, and has cleared its context in every player it used when it is stopped. On top of it Model/ShowKey.lean models one show-player key with every instance ever created under it: a play over an instance that still runs replaces it - at once without sync_ms, and with sync_ms by a replacement that waits for its sync point and holds the deferred stop of the old instance (start_callback; chains of waiting replacements included); for every sequence of plays, key requests (stop = also the end of the owning mode, pause, resume, advance, step_back, update) and timer callbacks of any instance it is proved that as soon as a replacement has started OR has been stopped (also before it ever started, e.g. after a pause cancelled its sync timer) every older instance is stopped and its stopped event occurs exactly once in the key's trace (replaced_show_stopped_exactly_once), that after a stop request no instance of the key runs (key_stopped_nothing_runs), that every instance's projection of the trace has stopped / played / completed once each (instance_events_once), that an instance holding a deferred stop has neither started nor stopped and names the instance created just before it (replaces_previous), and that every stopped instance - replaced ones included - has a clean context and no timer (context_removed_all). A play whose entry has no events_when_played / events_when_stopped / block_queue goes through the model of ShowController.replace_or_advance_show (KOp.playc, decision keep / advance / replace exactly as the code: replace unless the instance in the dict runs, has the identical ShowConfig - config id, loops, sync_ms and the current speed and manual_advance - and has played a step; keep when current_step_index + 1 == start_step, advance when current_step_index + 2 == start_step); all theorems above are proved for op sequences that contain such plays, and for every state it is proved that a repeated play never keeps, advances or starts an instance that still waits for its sync point - with sync_ms the request emits nothing and leaves the waiting instance, its sync timer and its start time on the grid untouched (repeated_play_keeps_sync) -, that a kept instance and every continuation of the run are unchanged (kept_instance_unchanged), and that the advance shortcut is exactly an advance request and is taken only one step before the requested start step with the identical config (advance_is_advance_request). Show-token substitution (Show.get_show_steps_with_token with _replace_token_values / _replace_token_keys incl. fix 4ec5a75) is modelled in Model/ShowToken.lean over flattened entries (path of keys, value) of segment lists produced by a scanner for the token syntax: it is total (tokens_total: all tokens supplied => no token left in any key or value at any depth), capture-free (tokens_capture_free: one token after the other through the values and then through the keys, as the code does it, equals the simultaneous substitution) and the identity without tokens / for tokens that do not occur (tokens_identity). The model is tied to the real show player / show controller / RunningShow / light player by a correspondence run on generated shows (dyadic and non-dyadic step times and speeds, sync_ms, start steps, hold steps, show files written with show tokens in keys, nested values, lists and time strings, one or two shows under one key, show player at machine level or in a mode) and control sequences on every check, with a model-independent oracle on effect timestamps (exact Fractions, tolerance 1 us), the sync grid, events per instance, deferred stops, token-substituted lights / colours / fades / step events and a twin machine without shows; repeated plays through entries without played/stopped events (decision of replace_or_advance_show compared with the model's on every such play; oracle: a waiting show is never started by a play request, a kept / advanced instance has the identical config and ends up at the requested start step); token substitution: the real get_show_steps_with_token on generated nested step dicts (tokens in keys at several depths, several tokens per key / value, tokens in list items and time strings, missing / extra / no tokens, `()` and unbalanced parentheses) against the model and against an independent regex substitution, incl. 'the show's own steps are not modified' and the step cache.",
+  "note": "Trusted: Lean kernel + {propext, Classical.choice, Quot.sound}; the hand-written model Model/Show.lean (validated only by differential runs); IEEE floats are outside the model: the implementation's float times are compared with the exact rational ones with a tolerance of 1 us, and a play request that falls (within float error) on a sync multiple is checked by the oracle only (start now or one period later are both accepted); the token model works on segment lists: token names containing '(' and replacement values containing parentheses are outside it (driver: bad-op / excluded by the generator), sibling keys that become equal after substitution are not compared, nested lists are not generated (mpf's _walk_show miscounts their indices: observation); RuntimeToken values and expand_config_entry of the players are not modelled (end-to-end oracle on the real machine only); the config id of a ShowConfig (show name, priority, show tokens, events_when_looped/... lists) is assigned by the harness; `start_step is None` (never produced by the show player) is not modelled; show queues / action queue / block_queue, show pools and players other than lights/events are outside the model and not exercised; the order of same-instant timer callbacks of two instances of one key is taken from the run; the clean-up of the light stacks themselves is checked by the oracle (twin machine) and by C09's model, not proved here.",
   "technique": "Lean 4 theorems (invariants by induction over all request sequences; schedule as a prefix of the absolute schedule for all latenesses; exact rational schedule by divisibility; sync start as least multiple; chain invariant and per-instance event ledger over the list of instances of a key) on a hand model + differential correspondence with real shows + schedule/sync/token/clean-up oracle against a twin machine",
   "translated": False,
  }
@@ -59,22 +67,29 @@ RULE = ("a case = 1-2 generated show files (1-4 steps) + play settings + 3-12 co
         "show config again, or the other show), request gaps 0..24 units incl. odd ones (before and after the sync "
         "point), 25% manual_advance; 20% of all cases have the show player in a mode and 60% of those end with the end "
         "of the mode instead of stop requests.  "
+        "A third stream (gen_rep_case) plays through entries without events_when_played/stopped: 1-2 shows of 1-4 steps (85% such "
+        "entries), sync_ms 0/125..1000/330/100, 30% manual_advance, 15% start_running false, 50% of the 4-14 requests are plays "
+        "for a live key - the same request again (30%), the same entry with start_step 1..n+1 (52%), with another speed or another "
+        "token value (18%) - at gaps 0,1,2,3,4,6,8,12,16,24 units (before the sync point, right after the start, a step later, "
+        "at the last step), the rest pause/resume/advance/step_back/speed updates (to the same and to another speed)/stop.  "
+        "A fourth stream substitutes tokens in generated nested step dicts (0-4 token names, 1-3 steps, dict depth <= 3, 1-4 "
+        "parts per string, 10% list values, `()` / unbalanced parentheses, all / some / no / extra tokens supplied).  "
         "A separate stream plays tokenised shows with a missing / an unknown token.  30% of the cases run with slow effects "
         "(late timers).  non-trivial = at least one control request lands while the show runs or the show loops/completes; "
         "distinct = canonical JSON of the case")
 TRUSTED = [
     "modelled, not verified: asyncio call_at / TimerHandle.cancel, the event queue's FIFO order for show events, the show "
     "loader's duration computation (its result is asserted against the generator's durations, tolerance 1e-9 s), light_player's "
-    "color/remove calls per step, show token substitution (checked end-to-end by the oracle only)",
-    "Model/Show.lean and Model/ShowKey.lean are hand-written; tied to mpf/assets/show.py, show_controller.py, show_player.py by correspondence on every run",
+    "color/remove calls per step; the regex of Show._check_token and str.replace (Model/ShowToken.lean has its own scanner, compared on every run)",
+    "Model/Show.lean, Model/ShowKey.lean and Model/ShowToken.lean are hand-written; tied to mpf/assets/show.py, show_controller.py, show_player.py by correspondence on every run and by source pins (harness/pins/C17.json)",
+    "instances of entries without events_when_played/stopped: start and stop are observed by wrapping RunningShow._start_now / stop; their order relative to events of other instances is not compared",
     "IEEE doubles: implementation times are accepted within 1 us of the exact rational time (harness units()); the clock at a "
     "request instant may be up to one clock resolution before the grid instant when non-dyadic timers are pending",
 ]
 ASSUMPTIONS = ["all durations, sync periods and request instants are whole numbers of 1/96000 s and every duration/speed is too "
                "(checked by the Lean driver: bad-op otherwise)",
-               "every play entry has events_when_played / events_when_stopped, so replace_or_advance_show always replaces a "
-               "running instance (its shortcuts for an unchanged running show are not exercised)",
-               "token values contain no parentheses; a play request on an exact sync multiple is compared with the model only "
+               "start_step of a play is an integer (the show player's template_int, default 1), never None",
+               "token values contain no parentheses, token names no '(' ; a play request on an exact sync multiple is compared with the model only "
                "when clock and period are dyadic"]
 
 # Times are exact rationals: integer numerators over the common denominator D (units per second).  D is a multiple of 64
@@ -135,6 +150,8 @@ def show_yaml(show, spec):
                 lines.append("  (lt): (c%d)" % i)
             lines.append("events:")
             lines.append("  - s(e)v_(nm)_%d" % i)          # two tokens in one key
+            if spec.get("ztok"):
+                lines.append("  - zz_(z)")                 # a token whose value changes nothing the oracle looks at
         else:
             for l in LIGHTS[:spec["lights"]]:
                 lines.append("  %s: %s%s" % (l, c, "-f%dms" % (spec["fade"] * 125) if spec["fade"] else ""))
@@ -142,9 +159,11 @@ def show_yaml(show, spec):
     return "".join(out)
 
 
-def show_tokens(show, spec, mode=None):
+def show_tokens(show, spec, mode=None, z="za"):
     """the token values the play entry hands in (mode: None | "missing" | "extra")"""
     toks = {"lt": ", ".join(LIGHTS[:spec["lights"]]), "nm": show, "e": "e"}
+    if spec.get("ztok"):
+        toks["z"] = z
     for i in range(len(durs_ms(spec))):
         toks["c%d" % i] = "%02x%02x%02x" % step_color(show, i)
     if spec["fade"]:
@@ -180,23 +199,66 @@ def key_of(case, name):
     return case["shows"][name].get("key", name)
 
 
+def other_speed(sp):
+    return "2" if sp == "1" else "1"
+
+
+def entry(case, name, act):
+    """the settings of the show-player entry a play request `act` of show `name` uses: "play" = the base entry; in cases
+    with repeated plays ("rep") also "play@<k>" = the same entry with start_step k, "playv" = with another speed, "playt" =
+    with another value of show token z.  Returns the play dict (+ "z")"""
+    p = dict(case["shows"][name]["play"], z="za")
+    if act.startswith("play@"):
+        p["start"] = int(act[5:])
+    elif act == "playv":
+        p["speed"] = other_speed(p["speed"])
+    elif act == "playt":
+        p["z"] = "zb"
+    return p
+
+
+def play_variants(case, name):
+    sh = case["shows"][name]
+    if not case.get("rep"):
+        return ["play"]
+    out = ["play"] + ["play@%d" % k for k in range(1, len(durs_ms(sh["spec"])) + 2)] + ["playv"]
+    if sh["spec"].get("ztok"):
+        out.append("playt")
+    return out
+
+
+def event_of(act, name):
+    if act.startswith("play@"):
+        return "play_%s_s%s" % (name, act[5:])
+    return act.replace(".", "p") + "_" + name
+
+
+def cfg_id(case, name, act):
+    """the model's config id: what ShowConfig compares besides speed / loops / sync_ms / manual_advance"""
+    return 2 * sorted(case["shows"]).index(name) + (1 if act == "playt" else 0)
+
+
 def show_player_yaml(case):
     s = "show_player:\n"
     for name, sh in sorted(case["shows"].items()):
-        p = sh["play"]
         key = key_of(case, name)
-        s += "  play_%s:\n    sh%s:\n      key: k%s\n      speed: %s\n      loops: %d\n      start_step: %d\n" % (
-            name, name, key, p["speed"], p["loops"], p["start"])
-        s += "      start_running: %s\n      manual_advance: %s\n      priority: %d\n" % (
-            "true" if p["running"] else "false", "true" if p["manual"] else "false", p["prio"])
-        if p.get("sync"):
-            s += "      sync_ms: %d\n" % p["sync"]
-        if sh["spec"].get("tok"):
-            s += "      show_tokens:\n"
-            for k, v in sorted(show_tokens(name, sh["spec"], sh["spec"].get("tokmode")).items()):
-                s += "        %s: \"%s\"\n" % (k, v)
-        for e in EVS:
-            s += "      events_when_%s: %s_%s\n" % (e, name, e)
+        for act in play_variants(case, name):
+            p = entry(case, name, act)
+            s += "  %s:\n    sh%s:\n      key: k%s\n      speed: %s\n      loops: %d\n      start_step: %d\n" % (
+                event_of(act, name), name, key, p["speed"], p["loops"], p["start"])
+            s += "      start_running: %s\n      manual_advance: %s\n      priority: %d\n" % (
+                "true" if p["running"] else "false", "true" if p["manual"] else "false", p["prio"])
+            if p.get("sync"):
+                s += "      sync_ms: %d\n" % p["sync"]
+            if sh["spec"].get("tok"):
+                s += "      show_tokens:\n"
+                for k, v in sorted(show_tokens(name, sh["spec"], sh["spec"].get("tokmode"), p["z"]).items()):
+                    s += "        %s: \"%s\"\n" % (k, v)
+            for e in EVS:
+                # a *plain* entry has no events_when_played / events_when_stopped: ShowController.replace_or_advance_show
+                # then compares the configs and may keep or advance the running instance instead of replacing it
+                if not (sh.get("plain") and e in ("played", "stopped")):
+                    s += "      events_when_%s: %s_%s\n" % (e, name, e)
         for a, act in ACTIONS.items():
             s += "  %s_%s:\n    sh%s:\n      key: k%s\n      action: %s\n" % (a, name, name, key, act)
         for sp in SPEEDS:
@@ -323,6 +385,88 @@ def gen_case(r, over=None):
     return case
 
 
+def gen_rep_case(r):
+    """repeated plays under one key through entries WITHOUT events_when_played / events_when_stopped (and without
+    block_queue): ShowController.replace_or_advance_show then compares the new ShowConfig with the instance in the dict
+    and keeps it (same config, already at the requested start step), advances it (one step before it) or replaces it.
+    The same request again at generated instants - before the sync point, right after the start, one step later, at the
+    last step -, requests with every start_step 1..n+1, with another speed, with another show-token value, after update
+    requests (the *current* speed counts), on paused / manual_advance / hold-step / completed shows."""
+    shows = {}
+    ext = r.random() < 0.5
+    for name in (["A", "B"] if r.random() < 0.35 else ["A"]):
+        n = r.choice([1, 2, 2, 3, 3, 4])
+        spec = {"durs": [r.choice([1, 2, 2, 3, 4, 6]) for _ in range(n)], "style": r.choice(["duration", "duration", "rel", "abs"]),
+                "lights": r.choice([1, 2]), "fade": r.choice([0, 0, 1])}
+        if n == 1:
+            spec["style"] = "duration"
+        play = {"speed": r.choice(["1", "1", "2", "0.5"]), "loops": r.choice([-1, -1, -1, 0, 1, 2]), "start": r.randint(1, n),
+                "running": r.random() < 0.85, "manual": r.random() < 0.3, "prio": r.choice([0, 1, 5]),
+                "sync": r.choice([0, 0, 0, 125, 250, 500, 1000, 1000])}
+        if ext:
+            spec["ms"] = [r.choice([100, 100, 330, 125, 250, 170]) for _ in range(n)]
+            del spec["durs"]
+            if r.random() < 0.25:
+                spec["ms"][r.choice([n - 1, r.randrange(n)])] = -1
+                spec["style"] = "duration"
+            spec["tok"] = r.random() < 0.5
+            spec["ztok"] = spec["tok"]
+            play["speed"] = r.choice(["1", "3", "0.3", "1.5", "2", "1"])
+            play["sync"] = r.choice([0, 0] + SYNCS)
+        shows[name] = {"spec": spec, "play": play, "plain": r.random() < 0.85}
+    if len(shows) == 2 and r.random() < 0.5:
+        shows["B"]["key"] = "A"
+        if r.random() < 0.5:
+            shows["B"]["plain"] = shows["A"]["plain"] = True
+    case = {"shows": shows, "rep": True}
+    keyof = {name: key_of(case, name) for name in shows}
+    ops = []
+    for name in shows:
+        ops.append([r.choice([0, 0, 2, 3, 5]), name, "play"])
+    for _ in range(r.randint(4, 14)):
+        name = r.choice(sorted(shows))
+        n = len(durs_ms(shows[name]["spec"]))
+        gap = r.choice([0, 0, 1, 1, 2, 2, 3, 4, 4, 6, 8, 8, 12, 16, 24])
+        k = r.random()
+        if k < 0.5:
+            k2 = r.random()
+            variants = play_variants(case, name)
+            if k2 < 0.3:
+                act = "play"                                   # the very same request again
+            elif k2 < 0.82:
+                act = "play@%d" % r.randint(1, n + 1)          # ... with start_step at / one after / elsewhere
+            elif k2 < 0.91 or "playt" not in variants:
+                act = "playv"
+            else:
+                act = "playt"
+        elif k < 0.58:
+            act = "pause"
+        elif k < 0.66:
+            act = "resume"
+        elif k < 0.76:
+            act = "advance"
+        elif k < 0.84:
+            act = "back"
+        elif k < 0.92:
+            sp = shows[name]["play"]["speed"]
+            act = "speed" + r.choice([sp, sp, other_speed(sp)] + (sorted(SPEEDS) if ext else ["0.5", "1", "2", "4"]))
+        else:
+            act = "stop"
+        ops.append([gap, name, act])
+    n0 = len(ops)
+    mode = r.random() < 0.15
+    if mode and r.random() < 0.6:
+        ops.append([r.choice([0, 2, 6, 40]), "*", "modeend"])
+    else:
+        for name in sorted(shows):
+            ops.append([r.choice([0, 2, 6, 40]), name, "stop"])
+    for _ in range(r.randint(2, 3)):
+        ops.append([r.choice([0, 2, 8]), r.choice(sorted(shows)), r.choice(["resume", "advance", "back", "pause", "speed2"])])
+    case.update({"ops": ops, "slow": r.random() < 0.25, "bg": r.random() < 0.6, "tail": 64, "keep": len(ops) - n0,
+                 "light_fade": 0, "fade_style": "light", "mode": mode})
+    return case
+
+
 def gen_token_refusal(r):
     """a play whose show_tokens miss a token of the show / carry one the show does not have, then ordinary requests"""
     case = gen_case(r, over=False)
@@ -398,7 +542,8 @@ class Run:
             return EventManager._verif17_post(em, event, callback, **kwargs)
         EventManager.post = ev_post
         for cls, attr in ((RunningShow, "_run_next_step"), (RunningShow, "_start_now"), (RunningShow, "_start_play"),
-                          (RunningShow, "_post_events"), (Light, "color"), (Light, "remove_from_stack_by_key")):
+                          (RunningShow, "_post_events"), (RunningShow, "stop"), (Light, "color"),
+                          (Light, "remove_from_stack_by_key")):
             if not hasattr(cls, "_verif17_" + attr):
                 setattr(cls, "_verif17_" + attr, getattr(cls, attr))
 
@@ -435,7 +580,23 @@ class Run:
                 # the synchronised start: `_start_now` runs from its timer
                 key, i = r.ctx_of[show.context]
                 r.head(key, {"k": "fire", "i": i, "t": units(r.vm.now()), "start": True})
-            return RunningShow._verif17__start_now(show)
+            res = RunningShow._verif17__start_now(show)
+            if r is not None and show.context in r.ctx_of and not show.show_config.events_when_played:
+                # an entry without events_when_played: the start itself is the observation (recorded when `_start_now`
+                # is through: where the event would have been posted)
+                key, i = r.ctx_of[show.context]
+                r.note(key, {"k": "ev", "e": "played", "i": i, "show": r.inst_show[key][i], "t": units(r.vm.now()), "synth": True})
+            return res
+
+        def stop(show):
+            r = RunningShow._verif17_run
+            was = show._stopped
+            res = RunningShow._verif17_stop(show)
+            if r is not None and not was and show._stopped and show.context in r.ctx_of and \
+                    not show.show_config.events_when_stopped:
+                key, i = r.ctx_of[show.context]
+                r.note(key, {"k": "ev", "e": "stopped", "i": i, "show": r.inst_show[key][i], "t": units(r.vm.now()), "synth": True})
+            return res
 
         def post_events(show, events):
             r = RunningShow._verif17_run
@@ -466,6 +627,7 @@ class Run:
         RunningShow._start_now = start_now
         RunningShow._start_play = start_play
         RunningShow._post_events = post_events
+        RunningShow.stop = stop
         Light.color = color
         Light.remove_from_stack_by_key = remove
         RunningShow._verif17_run = self
@@ -494,6 +656,7 @@ class Run:
         RunningShow._start_now = RunningShow._verif17__start_now
         RunningShow._start_play = RunningShow._verif17__start_play
         RunningShow._post_events = RunningShow._verif17__post_events
+        RunningShow.stop = RunningShow._verif17_stop
         Light.color = Light._verif17_color
         Light.remove_from_stack_by_key = Light._verif17_remove_from_stack_by_key
 
@@ -559,11 +722,10 @@ class Run:
                 self.head(key_of(case, name), {"k": "op", "act": act, "show": name, "t": units(self.vm.now()),
                                                "exact": (Fraction(self.vm.now()) * D).denominator == 1})
                 try:
-                    ev = act.replace(".", "p") + "_" + name
-                    self.vm.post(ev)
+                    self.vm.post(event_of(act, name))
                     self.vm.advance(0)
                 except Exception as e:  # noqa
-                    if act == "play" and case["shows"][name]["spec"].get("tokmode"):
+                    if act.startswith("play") and case["shows"][name]["spec"].get("tokmode"):
                         self.refused.append(name)       # a token is missing / unknown: the play request is refused
                     else:
                         self.fail.append(("crash-" + act, {"show": name, "error": repr(e)}))
@@ -685,8 +847,11 @@ def oracle(run, case):
             new = [e for e in entries if e["k"] == "new"]
             must_stop = []
             a = cur
-            if act == "play":
+            repeated = False        # a play request that created no instance: the old one was kept or advanced
+            if act and act.startswith("play"):
                 pname = head["show"]
+                ent = entry(case, pname, act)
+                act = "play"
                 if pname in run.refused:
                     if [t for t in toks if t[0] is None or t[0] >= len(insts)]:
                         fails.append(("refused-play-has-effects", {"show": pname, "at": head["t"], "obs": obs}))
@@ -695,12 +860,46 @@ def oracle(run, case):
                     insts += [{"stopped": True, "replaces": None, "count": {e: 0 for e in EVS}, "zombie": True, "name": pname,
                                "played_steps": 0} for _ in new]
                     continue
-                if len(new) != 1 or new[0]["i"] != len(insts):
+                shw = case["shows"][pname]
+                old = insts[cur] if cur is not None and not insts[cur].get("zombie") else None
+                if not new and shw.get("plain") and old is not None and not old["stopped"]:
+                    # replace_or_advance_show's shortcut: legitimate only for the very same config (same show, tokens,
+                    # priority, loops, sync_ms, manual_advance and the speed the instance has *now*)
+                    same = old["name"] == pname and old["z"] == ent["z"] and old["speed"] == SPEEDS[ent["speed"]] and \
+                        old["play"]["loops"] == ent["loops"] and old["play"].get("sync", 0) == ent.get("sync", 0) and \
+                        old["play"]["manual"] == ent["manual"] and old["play"]["prio"] == ent["prio"]
+                    if not same:
+                        fails.append(("play-creates-no-instance", {"show": pname, "at": head["t"], "obs": obs, "request": head["act"],
+                                                                   "why": "the running instance has another config (speed / tokens / ...)"}))
+                        cut = True
+                        break
+                    repeated = True
+                    mine0 = [t for i, t in toks if i == cur]
+                    if old["pending"] and mine0:
+                        # a show that waits for its sync point is started by nothing but its timer or a
+                        # resume / advance / step_back request - a repeated play must not start it off the grid
+                        fails.append(("sync-start-off-grid", {"show": pname, "play_at": old["t_play"], "at": head["t"],
+                                                              "sync_units": old["sync"], "obs": obs,
+                                                              "why": "a repeated play request started the waiting show"}))
+                        cut = True
+                        break
+                    act = "advance" if mine0 else "keep"
+                    cnt("repeated_play_" + ("advances" if mine0 else "keeps") + ("_waiting_show" if old["pending"] else ""))
+                    if old["paused"]:
+                        cnt("repeated_play_" + act + "_paused_show")
+                    want_first = first_idx(ent["start"], len(old["durs"]))
+                    if act == "keep" and not old["pending"] and (old["prev"] is None or old["prev"]["idx"] != want_first):
+                        fails.append(("request-plays-wrong-step", {"show": pname, "request": head["act"], "at": head["t"],
+                                                                   "kept_at_step": old["prev"] and old["prev"]["idx"],
+                                                                   "want_step": want_first}))
+                        cut = True
+                        break
+                elif len(new) != 1 or new[0]["i"] != len(insts):
                     fails.append(("play-creates-no-instance", {"show": pname, "at": head["t"], "obs": obs}))
                     cut = True
                     break
-                shw = case["shows"][pname]
-                psync = shw["play"].get("sync", 0) * MS
+            if act == "play":
+                psync = ent.get("sync", 0) * MS
                 holds = None
                 if cur is not None and not insts[cur]["stopped"]:
                     if psync:
@@ -709,11 +908,13 @@ def oracle(run, case):
                     else:
                         must_stop = chain(cur)
                         cnt("play_over_running_unsynced")
+                    if shw.get("plain"):
+                        cnt("plain_play_replaces_running" + ("_waiting" if insts[cur].get("pending") else ""))
                 a = cur = len(insts)
-                insts.append({"count": {e: 0 for e in EVS}, "stopped": False, "prev": None, "speed": SPEEDS[shw["play"]["speed"]],
-                              "loops": shw["play"]["loops"], "paused": not shw["play"]["running"], "pending": bool(psync),
+                insts.append({"count": {e: 0 for e in EVS}, "stopped": False, "prev": None, "speed": SPEEDS[ent["speed"]],
+                              "loops": ent["loops"], "paused": not ent["running"], "pending": bool(psync),
                               "t_play": head["t"], "played_steps": 0, "replaces": holds, "name": pname, "spec": shw["spec"],
-                              "play": shw["play"], "durs": model_durs(shw["spec"]), "sync": psync})
+                              "play": ent, "durs": model_durs(shw["spec"]), "sync": psync, "z": ent["z"]})
             elif act == "fire":
                 a = head["i"]
             elif new:
@@ -847,6 +1048,12 @@ def oracle(run, case):
                         fails.append(("request-plays-wrong-step", {"show": name, "request": act, "step": idx, "want_step": want_i}))
                         cut = True
                         break
+                    if repeated and idx != (first_idx(ent["start"], total) or 0):
+                        # the play request was answered by advancing the running instance: it must now be at the start step
+                        fails.append(("request-plays-wrong-step", {"show": name, "request": head["act"], "step": idx,
+                                                                   "want_step": first_idx(ent["start"], total) or 0}))
+                        cut = True
+                        break
                 elif act == "fire":
                     p = inst["prev"]
                     if p is None or durs[p["idx"]] == 0:
@@ -902,7 +1109,15 @@ def oracle(run, case):
 
 def to_model_lines(run, case, key):
     lines = []
+    last_t = 0
     for head, entries in segments(run.logs[key]):
+        if head["k"] != "none":
+            if head["t"] < last_t:
+                # several timers of one instant ran with slow effects (each moves the test loop's clock on by 1/64 s), then
+                # the test loop set its clock back to the next request's instant: an artefact of the harness clock - the
+                # model's clock never runs backwards, so this key is left to the oracle
+                return "clock-set-back"
+            last_t = head["t"]
         toks = obs_of(run, case, key, entries)
         obs = None if toks is None else ["%s:%s" % t for t in toks]
         if head["k"] == "none":
@@ -912,9 +1127,9 @@ def to_model_lines(run, case, key):
             line = "fire %d %d" % (head["i"], head["t"])
         else:
             act = head["act"]
-            if act == "play":
+            if act.startswith("play"):
                 shw = case["shows"][head["show"]]
-                spec, play = shw["spec"], shw["play"]
+                spec, play = shw["spec"], entry(case, head["show"], act)
                 num, den = SPEEDS[play["speed"]]
                 sync = play.get("sync", 0)
                 if sync and head["t"] % (sync * MS) == 0 and not (sync in DYADIC_SYNC and head.get("exact")):
@@ -926,6 +1141,9 @@ def to_model_lines(run, case, key):
                 line = "play %d %d %s %d %d %d %d %d %s" % (num, den, "inf" if play["loops"] < 0 else play["loops"], play["start"],
                                                            1 if play["running"] else 0, 1 if play["manual"] else 0, sync * MS,
                                                            head["t"], " ".join(str(d) for d in model_durs(spec)))
+                if shw.get("plain"):
+                    # an entry without events_when_played/stopped: the model decides keep / advance / replace
+                    line = "playc %d %s" % (cfg_id(case, head["show"], act) * 8 + play["prio"], line[5:])
             elif act.startswith("speed"):
                 num, den = SPEEDS[act[5:]]
                 line = "speed %d %d %d" % (num, den, head["t"])
@@ -937,10 +1155,20 @@ def to_model_lines(run, case, key):
     return lines
 
 
-def model_obs(ans):
-    """the model's answer in the order the implementation is observed in: synchronous effects first, then the events"""
-    body = ans[1:].split("|")[0].split()
-    return [t for t in body if ":E" not in t] + [t for t in body if ":E" in t]
+def canon_obs(toks, per_instance):
+    """synchronous effects first, then the events (the order in which the implementation is observed).  In a case with
+    entries without events_when_played/stopped the start and the stop of their instances are recorded when they happen
+    (there is no event that would travel through the event queue): there the events are compared per instance (stable
+    sort by instance), not across instances"""
+    ev = [t for t in toks if ":E" in t]
+    if per_instance:
+        ev.sort(key=lambda t: int(t.split(":")[0]) if t.split(":")[0].isdigit() else -1)
+    return [t for t in toks if ":E" not in t] + ev
+
+
+def model_obs(ans, per_instance=False):
+    """the model's answer in the order the implementation is observed in"""
+    return canon_obs(ans[1:].split("|")[0].split(), per_instance)
 
 
 def model_check(ctx, model, run, case):
@@ -953,6 +1181,11 @@ def model_check(ctx, model, run, case):
         if lines is None:
             ctx.count("sync_float_coincidence_not_compared")
             continue
+        if lines == "clock-set-back":
+            ctx.count("harness_clock_set_back_after_slow_timer_chain_not_compared")
+            continue
+        plain = any(sh.get("plain") for sh in case["shows"].values())
+        ninst = 0
         for line, obs, head in lines:
             what = {"key": key, "at": head["t"], "line": line}
             if line is None:
@@ -962,8 +1195,20 @@ def model_check(ctx, model, run, case):
             if not ans.startswith("o"):
                 ctx.compare(dict(case, **what), obs, ans)
                 return
-            if not ctx.compare(dict(case, **what), obs, model_obs(ans)):
+            if obs is not None and plain:
+                obs = canon_obs(obs, True)
+            if not ctx.compare(dict(case, **what), obs, model_obs(ans, plain)):
                 return
+            created = len([e for e in run.logs[key] if e["k"] == "new" and e["seg"] == head.get("seg")])
+            if line.startswith("playc"):
+                # the decision of replace_or_advance_show: what the implementation did (new instance / the old one did
+                # something / nothing at all) against the model's keep / advance / replace
+                did = ("new" if not ninst else "replace") if created else \
+                    "advance" if [o for o in (obs or []) if o.split(":")[0] == str(ninst - 1)] else "keep"
+                ctx.count("decision_" + did)
+                if not ctx.compare(dict(case, what="decision of replace_or_advance_show", **what), did, ans.split("|")[-1].strip()):
+                    return
+            ninst += created
         # final stopped flags of every instance ever created under the key
         ans = model.ask("pause %d" % run.end)
         if ans.startswith("o"):
@@ -1033,7 +1278,8 @@ def one_case(ctx, model, case):
     run = execute_case(case)
     ctx.evaluated(case, is_nontrivial(case))
     for _, _, act in case["ops"]:
-        ctx.count("req_" + (act if not act.startswith("speed") else "speed_update"))
+        ctx.count("req_" + ("speed_update" if act.startswith("speed") else "play_start_step_variant" if act.startswith("play@")
+                            else "play_other_speed" if act == "playv" else "play_other_tokens" if act == "playt" else act))
     for key in run.keys:
         for e in run.logs[key]:
             if e["k"] == "fire":
@@ -1050,6 +1296,10 @@ def one_case(ctx, model, case):
         for _ in range(v):
             ctx.count(k)
     ctx.count("cases_slow_effects" if case["slow"] else "cases_on_time")
+    if case.get("rep"):
+        ctx.count("cases_repeated_plays")
+        for shw in case["shows"].values():
+            ctx.count("show_entry_without_played_stopped_events" if shw.get("plain") else "show_entry_with_events_in_rep_case")
     if case.get("mode"):
         ctx.count("cases_show_player_in_mode")
     for name, shw in case["shows"].items():
@@ -1191,6 +1441,34 @@ CORPUS4 = [
 ]
 
 
+def rep(shows, ops, keep, **kw):
+    return over(shows, ops, keep, rep=True, **kw)
+
+
+def plain(d):
+    d["plain"] = True
+    return d
+
+
+# session 3c: repeated plays through entries without events_when_played/stopped (replace_or_advance_show's shortcuts)
+CORPUS5 = [
+    # the seeded change: the identical play again while the first instance still waits for its sync point (1 s grid)
+    rep({"A": plain(sh([2, 2], sync=1000))}, keep=2,
+        ops=[[1, "A", "play"], [4, "A", "play"], [2, "A", "play@1"], [2, "A", "play@2"], [40, "A", "stop"], [2, "A", "resume"]]),
+    # keep right after the start, replace one step later, advance to the next step, advance at the last step (wraps)
+    rep({"A": plain(sh([4, 4, 4], lights=2))}, keep=2,
+        ops=[[0, "A", "play"], [1, "A", "play"], [8, "A", "play"], [1, "A", "play@2"], [1, "A", "play@3"], [1, "A", "play@4"],
+             [2, "A", "play@1"], [30, "A", "stop"], [2, "A", "advance"]]),
+    # another speed / the speed after an update request / other tokens; a paused and a manual_advance show
+    rep({"A": plain(sh(None, ms=[100, 330, 250], speed="3", tok=True, running=False)),
+         "B": plain(sh([2, 2], manual=True, loops=0, prio=5))}, keep=3,
+        ops=[[0, "A", "play"], [0, "B", "play"], [2, "A", "play"], [2, "A", "playv"], [2, "A", "play"], [1, "A", "speed3"],
+             [1, "A", "play"], [2, "A", "playt"], [2, "B", "play@2"], [2, "B", "play@3"], [2, "B", "play"],
+             [20, "A", "stop"], [0, "B", "stop"], [2, "A", "resume"]]),
+]
+CORPUS5[2]["shows"]["A"]["spec"]["ztok"] = True
+
+
 def run(ctx):
     model = None if getattr(ctx, "model_unavailable", False) else leanproc.LeanProc(ID)
     ctx.notes["time_units_per_second"] = D
@@ -1202,7 +1480,18 @@ def run(ctx):
             one_case(ctx, None, case)
         for i in range(ctx.n(40, 300)):
             one_case(ctx, None, gen_token_refusal(ctx.rng("tokens", i)))
-        for i in range(ctx.n(450, 4000)):
+        for case in CORPUS5:
+            one_case(ctx, model, case)
+        # show-token substitution: the real Show.get_show_steps_with_token on generated nested step dicts vs Model/ShowToken.lean
+        for case in tokens_c17.CORPUS:
+            tokens_c17.one_case(ctx, model, case)
+        for i in range(ctx.n(1500, 15000)):
+            r = ctx.rng("tokensubst", i)
+            if not tokens_c17.one_case(ctx, model, tokens_c17.gen_case(r)) and not ctx.search:
+                break
+        for i in range(ctx.n(220, 2300)):
+            one_case(ctx, model, gen_rep_case(ctx.rng("rep", i)))
+        for i in range(ctx.n(340, 3400)):
             one_case(ctx, model, gen_case(ctx.rng("case", i)))
     finally:
         if model is not None:
@@ -1211,6 +1500,9 @@ def run(ctx):
 
 def replay(ctx, rep):
     case = rep["case"]
+    if case.get("kind") == "tokens":
+        tokens_c17.one_case(ctx, None, case)
+        return
     run = execute_case(case)
     for sig, detail in run.fail:
         if sig == rep.get("signature"):
